@@ -145,6 +145,10 @@ def who_may(P, R, V, softfns):
             if ev['k'] == 'call' and ev.get('callee') in ('memset', 'bitset_clear', 'bitset_and', 'bitset_andnot', 'memcpy') and ev['args'] \
                     and any(core.is_req_flags(x) for x in walk(ev['args'][0])):
                 R.ob('C01.WMC.1', False, s, 'request flags bulk-overwritten by %s' % ev['callee'], key='bulk:%s' % ev['callee'])
+            if ev['k'] == 'call' and ev.get('callee') == 'bitset_or' and ev['args'] and any(core.is_req_flags(x) for x in walk(ev['args'][0])):
+                keeps = len(ev['args']) >= 3 and (sx(ev['args'][0]) == sx(ev['args'][1]) or sx(ev['args'][0]) == sx(ev['args'][2]))
+                R.ob('C01.WMC.1', keeps, s, 'bits are ORed INTO the request flags (the destination is one of the operands), so RESPONDED / SOFT_DONE survive: bitset_or(%s)'
+                     % ', '.join(sx(a) for a in ev['args'][:3]), key='bulk-or-keeps')
     # soft-done: only from the gate, under !SOFT_DONE, and sets the flag on all paths
     for k in softfns:
         sf = P.fns[k]
